@@ -89,6 +89,28 @@ theorem roundtrip_ss_links_full_bytes (cl : Str → Nat) (legacy : Bool) (cs : L
   exact ss_roundtrip_links_full (ssSeqL {} {}) (ssDelta legacy)
     (fun s n l hs hn => ss_delta_roundtrip_L C18.ssCfg_covers legacy s n l hs hn) cs {} {} wf_default hcs hr
 
+/-- **The cross direction with hyperlinks**: `NewStyledString` reads back what `EncodeCells` wrote — URL and parameters included,
+    colon forms and (under `VAXIS_FORCE_LEGACY_SGR`) legacy semicolon forms, where a `0` that is a colour index (`38;5;0`) is
+    passed over by the `i += n` look-ahead and does not reset the hyperlink. -/
+theorem roundtrip_cells_links_via_ss_full_bytes (cl : Str → Nat) (legacy : Bool) (cs : List LCell) (hcs : ∀ c ∈ cs, c.cell.st.wf)
+    (hl : CellLinksOK cs) (hr : LinksRestorable {} cs) (ht : TextOKL cl (encodeFromL (encodeDelta legacy) {} {} cs)) :
+    newStyledStringBL cl {} {} (encodeCellsBL legacy cs) = .ok cs := by
+  obtain ⟨h1, h2⟩ := encodeFromL_mem (encodeDelta legacy) ParamsOk (by rw [sgrResetQ_eq]; intro p hp; simp at hp)
+    (fun p n hn q hq => paramsOk_of_eml q (encodeDelta_range legacy p n hn q hq)) cs {} {} (ul_of_wf cs hcs) hl
+  rw [(encode_links_bytes_eq legacy cs).1, newStyledStringBL_ltoks cl {} {} _ (goodL_of cl _ ht h1 h2)]
+  exact ss_roundtrip_links_full (ssSeqL {} {}) (encodeDelta legacy)
+    (fun s n l hs hn => ss_delta_roundtrip_cells_L legacy s n l hs hn) cs {} {} wf_default hcs hr
+
+/-- The restriction is decidable; `restorableB` is what the driver's `rtl` oracle evaluates before it judges the links. -/
+theorem links_restorable_decidable (cs : List LCell) (l : Link) : restorableB l cs = true ↔ LinksRestorable l cs :=
+  restorableB_iff cs l
+
+
+-- a `0` inside a legacy colour form does not reset the link, a `0` parameter does (evaluated)
+example : (match newStyledStringBL (fun _ => 1) {} {} ([0x1B, 0x5D, 0x38, 0x3B, 0x3B, 0x75, 0x1B, 0x5C] ++ [0x61] ++
+      [0x1B, 0x5B, 0x33, 0x38, 0x3B, 0x35, 0x3B, 0x30, 0x6D] ++ [0x62] ++ [0x1B, 0x5B, 0x31, 0x3B, 0x30, 0x6D] ++ [0x63]) with
+    | .ok r => r.map (·.link.url) | .error _ => []) = [[0x75], [0x75], []] := by decide
+
 /-- The restriction in the form the generator uses: the parameters are a function of the URL (nothing for the empty
     URL) and contain no `;`. -/
 theorem links_restorable_of_fn (pf : Str → Str) (h0 : pf [] = []) (hsemi : ∀ u, ∀ b ∈ pf u, b ≠ 0x3B) :
@@ -151,5 +173,7 @@ example : LinksRestorable {} exLinked := by
 
 example : (match newStyledStringBL (fun _ => 1) {} {} (ssEncodeBL false exLinked) with
     | .ok r => decide (r = exLinked) | .error _ => false) = true := by decide
+
+example : restorableB {} exLinked = true ∧ restorableB {} exChangedParams = false := by decide
 
 end VaxisModel.Props.C18Links
